@@ -272,10 +272,15 @@ static size_t fill_vals(int kind) {
         VALS[7] = 70000;
         VALS[200] = 70000 + 65535;
         break;
+    case 12: /* 300 distinct values: 2-byte dictionary indices */
+        for (n = 0; n < 600; n++) {
+            VALS[n] = (n % 300) * 1000003ULL + 17;
+        }
+        break;
     }
     return n;
 }
-static const char *VALN[] = {"60 values over 5 distinct", "200 values over 40 distinct", "100 clustered values", "100 clustered values with 4 outliers", "300 strictly increasing small values", "300 sorted large values", "10500 pseudo-scattered values", "50 unsorted wide values", "5000 strictly increasing values", "ascending 0..49 with one duplicate", "200 values with range exactly 0xFF", "300 values with range exactly 0xFFFF"};
+static const char *VALN[] = {"60 values over 5 distinct", "200 values over 40 distinct", "100 clustered values", "100 clustered values with 4 outliers", "300 strictly increasing small values", "300 sorted large values", "10500 pseudo-scattered values", "50 unsorted wide values", "5000 strictly increasing values", "ascending 0..49 with one duplicate", "200 values with range exactly 0xFF", "300 values with range exactly 0xFFFF", "600 values over 300 distinct"};
 
 static int same_u64(const uint64_t *a, const uint64_t *b, size_t n) { return memcmp(a, b, n * 8) == 0; }
 
@@ -295,9 +300,14 @@ static void verify_adaptive(size_t wrote, size_t n, const char *what) {
     }
 }
 
-static void scn_dict(int which, int vk) {
+static void scn_dict(int which, int vk, int prior) {
     size_t n = fill_vals(vk);
-    snprintf(scn_desc, sizeof scn_desc, "%s", VALN[vk]);
+    static const int PRIOR_DISTINCT[3] = {8, 100, 300};
+    if (which == 6) {
+        snprintf(scn_desc, sizeof scn_desc, "%s, dictionary already holding %d entries", VALN[vk], PRIOR_DISTINCT[prior]);
+    } else {
+        snprintf(scn_desc, sizeof scn_desc, "%s", VALN[vk]);
+    }
     switch (which) {
     case 0: { /* Create */
         FAULT_BEGIN();
@@ -317,11 +327,15 @@ static void scn_dict(int which, int vk) {
         if (!d) {
             return;
         }
-        static uint64_t small[24];
+        static uint64_t small[24], prev[900], cur[1300];
         for (size_t i = 0; i < 24; i++) {
             small[i] = (i % 8) * 11 + 1;
         }
-        if (which == 6 && varintDictBuild(d, small, 24) != 0) {
+        size_t nprev = (size_t)PRIOR_DISTINCT[prior] * 3;
+        for (size_t i = 0; i < nprev; i++) {
+            prev[i] = (i % (size_t)PRIOR_DISTINCT[prior]) * 11 + 1;
+        }
+        if (which == 6 && varintDictBuild(d, prev, nprev) != 0) {
             varintDictFree(d);
             return;
         }
@@ -347,6 +361,25 @@ static void scn_dict(int which, int vk) {
                 }
             }
             (void)varintDictFind(d, 12345);
+            /* ... then the dictionary used AS IT IS: whatever entries it says it holds must encode and decode
+             * losslessly (a failed Build must not leave index width, size and values describing different data) */
+            if (d->size > 0 && d->size <= 600) {
+                size_t m = (size_t)d->size * 2 + 3;
+                for (size_t i = 0; i < m; i++) {
+                    cur[i] = varintDictLookup(d, (uint32_t)((i * 7) % d->size));
+                }
+                size_t w = varintDictEncodeWithDict(ENC, d, cur, m);
+                if (w) {
+                    memset(OUT, 0xAB, m * 8);
+                    size_t r = varintDictDecodeInto(ENC, w, OUT, m);
+                    size_t oc = 0;
+                    uint64_t *o2 = varintDictDecode(ENC, w, &oc);
+                    if (r != m || !same_u64(OUT, cur, m) || !o2 || oc != m || !same_u64(o2, cur, m)) {
+                        FFAIL("inconsistent_object", "after a failed Build the dictionary (%u entries) encodes its own entries into %zu bytes that decode to %zu/%zu values differing from them", d->size, w, r, oc);
+                    }
+                    free(o2);
+                }
+            }
             /* ... then a fault-free build of an input with fewer distinct values than the capacity ... */
             if (varintDictBuild(d, small, 24) != 0) {
                 FFAIL("inconsistent_object", "dictionary unusable after a failed Build (small rebuild fails)");
@@ -708,6 +741,18 @@ static void build_scenarios(void) {
             add_sc(DN[w], 0, w, vk, 0);
         }
     }
+    /* rebuilds across index-width classes: prior population 8 / 100 / 300 entries x new input 5 / 40 / 300 / ~10000 distinct */
+    static const int rebuild_vk[4] = {0, 1, 12, 6};
+    for (int prior = 0; prior < 3; prior++) {
+        for (int j = 0; j < 4; j++) {
+            if (prior == 0 && j < 2) {
+                continue; /* already listed above */
+            }
+            add_sc(DN[6], 0, 6, rebuild_vk[j], prior);
+        }
+    }
+    add_sc(DN[1], 0, 1, 12, 0);
+    add_sc(DN[1], 0, 1, 6, 0);
     add_sc("PFOR.ComputeThreshold", 1, 0, 2, 0);
     add_sc("PFOR.ComputeThreshold", 1, 0, 3, 0);
     add_sc("PFOR.Encode", 1, 1, 2, 0);
@@ -785,7 +830,7 @@ static void run_scenario(const scenario *s) {
     scn_trigger = "untagged";
     switch (s->fam) {
     case 0:
-        scn_dict(s->a, s->b);
+        scn_dict(s->a, s->b, s->c);
         break;
     case 1:
         scn_pfor(s->a, s->b);
